@@ -218,4 +218,409 @@ example : like (fun r => if 97 ≤ r ∧ r ≤ 122 then (r : Int) - 32 else r) f
     like (fun r => (r : Int)) false 92 [97, 37, 95] [65, 120, 121, 122] = some false ∧
     like (fun r => (r : Int)) false 92 [97, 92] [97] = none := by decide
 
+/-! ### SQL operators on collated columns
+
+Full statement (FALSE on the unchanged tree — `finding_in_literal_list_ignores_collation`):
+`∀ w a b, sqlRowImpl w a b = sqlRowSpec w a b`. -/
+
+theorem cmpW_map_ofNat_zero (a b : List Nat) (h : cmpW (a.map wDefault) (b.map wDefault) = 0) : a = b := by
+  rw [cmpW_eq_zero_iff] at h
+  have := congrArg (List.map Int.toNat) h
+  simpa [List.map_map, Function.comp_def, wDefault] using this
+
+/-- Equality under the literal's collation (`utf8mb4_0900_bin`, weight = code point) implies
+equality under every collation. -/
+theorem default_zero_imp_zero (w : Nat → Int) (a b : List Nat)
+    (h : compareSpec wDefault false a b = 0) : compareSpec w false a b = 0 := by
+  unfold compareSpec at h ⊢
+  rw [cmpW_map_ofNat_zero _ _ h]
+  exact cmpW_refl _
+
+/-- Outside the region the operators `=`, `<`, `>`, `LIKE`, `IN (column list)`, `IN (literal
+list)`, `<=>`, `STRCMP` all answer according to the column collation. -/
+theorem sqlRow_partial (w : Nat → Int) (a b : List Nat) (h : ¬ InLiteralRegion w a b) :
+    sqlRowImpl w a b = sqlRowSpec w a b := by
+  unfold sqlRowImpl sqlRowSpec
+  rw [compare_refines]
+  congr 1
+  by_cases h0 : compareSpec w false a b = 0
+  · have h1 : compareSpec wDefault false a b = 0 := by
+      by_cases h1 : compareSpec wDefault false a b = 0
+      · exact h1
+      · exact absurd ⟨h0, h1⟩ h
+    simp [h0, h1]
+  · have h1 : compareSpec wDefault false a b ≠ 0 := fun h1 => h0 (default_zero_imp_zero w a b h1)
+    have e1 : (compareSpec w false a b == 0) = false := beq_eq_false_iff_ne.2 h0
+    have e2 : (some (compareSpec wDefault false a b) == some (0 : Int)) = false := by simp [h1]
+    rw [e1, e2]
+
+/-- Witness: column collation folds ASCII case, `a = 'abc'`, `b = 'ABC'`: `a IN ('ABC', …)` is 0
+although `a = b`, `a IN (b, b)`, `a <=> b` are 1 and `STRCMP(a, b)` is 0. Replayed on the engine:
+table `t_utf8mb4_0900_ai_ci`, row `('abc','ABC')` gives `1,0,0,1,1,0,1,0`. -/
+theorem finding_in_literal_list_ignores_collation :
+    ∃ (w : Nat → Int) (a b : List Nat), InLiteralRegion w a b ∧ sqlRowImpl w a b ≠ sqlRowSpec w a b :=
+  ⟨fun r => if 97 ≤ r ∧ r ≤ 122 then (r : Int) - 32 else r, [97, 98, 99], [65, 66, 67], by decide⟩
+
+/-! ### Regenerated facts (Gms/Generated/C29.lean, rewritten on every run)
+
+`facts_match` pins the shape of the Go code the model transliterates (the tests that guard the
+"malformed string" exits — note `aRead == utf8.RuneError` compares a *size* with U+FFFD —, the
+weight comparison, the little-endian byte writes, the `Collation_binary` special case, the LIKE
+matcher's tests). The per-table facts are decided by kernel evaluation over the complete dumped
+tables of **every** collation that has a `Sorter` and an encoder. -/
+
+section Facts
+open Gms.Generated.C29
+
+theorem facts_match :
+    compareMalformedTests = ["aRead == 0", "bRead == 0", "aRead == utf8.RuneError", "bRead == utf8.RuneError"] ∧
+    compareTests = ["aWeight < bWeight", "aWeight > bWeight", "len(as) < len(bs)", "len(as) > len(bs)"] ∧
+    weightMalformedTests = ["strRead == 0", "strRead == utf8.RuneError"] ∧
+    weightByteWrites = ["i * 4 <- byte(runeWeight)", "i*4 + 1 <- byte(runeWeight >> 8)",
+      "i*4 + 2 <- byte(runeWeight >> 16)", "i*4 + 3 <- byte(runeWeight >> 24)"] ∧
+    weightBinaryCase = "c == Collation_binary" ∧
+    likeMalformedTests_ConstructLikeMatcher = ["nextRune == utf8.RuneError && advance <= 1", "nextRune == utf8.RuneError && advance <= 1"] ∧
+    likeMalformedTests_Match = ["nextRune == utf8.RuneError && advance <= 1"] ∧
+    likeMalformedTests_backtrack = ["nextRune == utf8.RuneError && advance <= 1"] ∧
+    likeRuneMatchTest = "l.sortOrder < 0 || collation.Sorter()(r) == l.sortOrder" ∧
+    tableSize = 768 := by decide
+
+/-- the raw 32-bit field of rune `r` (what `weightAt` sign-extends) — cheaper for the kernel -/
+def rawAt (tbl r : Nat) : Nat := (tbl >>> (32 * r)) % 4294967296
+
+theorem weightAt_of_raw (tbl r : Nat) :
+    weightAt tbl r = if rawAt tbl r ≥ 2147483648 then (rawAt tbl r : Int) - 4294967296 else (rawAt tbl r : Int) := rfl
+
+/-- The weight function of a dumped collation. -/
+def wOf (k : Coll) : Nat → Int := tableW tableSize k.tbl
+
+theorem wOf_lt (k : Coll) (r : Nat) (h : r < 768) : wOf k r = weightAt k.tbl r := by
+  simp [wOf, tableW, tableSize, h]
+
+/-- Hypothesis `hw` of the coherence theorems holds for every dumped table entry (and for the
+default weight): the weights are `int32`s. -/
+theorem wOf_int32 (k : Coll) (r : Nat) : -2147483648 ≤ wOf k r ∧ wOf k r < 2147483648 := by
+  unfold wOf tableW weightAt defaultWeight
+  split
+  · simp only []
+    split <;> omega
+  · omega
+
+theorem table_nonempty : (table.length == 183 && (table.filter (·.ci)).length == 140 &&
+    (table.filter (·.bin)).length == 15) = true := by decide +kernel
+
+/-- Coherence instantiated: for every dumped non-binary collation, `Compare = 0` ⇔ equal weight
+strings (the tables only matter through `wOf_int32`). -/
+theorem table_compare_zero_iff_weightString (k : Coll) (a b : List Nat) :
+    compare (wOf k) false a b = some 0 ↔ writeWeights (wOf k) false a = writeWeights (wOf k) false b :=
+  compare_zero_iff_weightString (wOf k) (wOf_int32 k) a b
+
+/-! #### Case-insensitive collations -/
+
+/-- (collation id, name, upper-case rune) triples whose lower-case partner has a different weight
+on the unchanged tree — the regions of the findings `ci_turkish_dotted_i` (I/i, and Ì Í Î Ï in the
+0900 tailoring) and `ci_latin7_general_pairs`. (Tests go through the numeric id: string equality is
+slow in the kernel; `facts_ci_exceptions_tight` ties ids to names.) -/
+def ciExceptions : List (Nat × String × Nat) :=
+  [(41, "latin7_general_ci", 84),
+   (110, "utf16_turkish_ci", 73), (169, "utf32_turkish_ci", 73), (201, "utf8mb3_turkish_ci", 73),
+   (233, "utf8mb4_turkish_ci", 73),
+   (265, "utf8mb4_tr_0900_ai_ci", 73), (265, "utf8mb4_tr_0900_ai_ci", 204), (265, "utf8mb4_tr_0900_ai_ci", 205),
+   (265, "utf8mb4_tr_0900_ai_ci", 206), (265, "utf8mb4_tr_0900_ai_ci", 207)]
+
+def ciExc (id c : Nat) : Bool := ciExceptions.any fun e => e.1 == id && e.2.2 == c
+
+def CiRegion (k : Coll) (c : Nat) : Prop := ciExc k.id c = true
+
+/-- A–Z -/
+def asciiUpper : List Nat := List.range' 65 26
+/-- À–Þ without × -/
+def latin1Upper : List Nat := (List.range' 192 31).filter (· != 215)
+
+/-- Every `_ci` collation gives every ASCII upper-case letter the weight of its lower-case
+partner, except the listed pairs. -/
+theorem facts_ci_fold_ascii_b : table.all (fun k => !k.ci || asciiUpper.all fun c =>
+    ciExc k.id c || rawAt k.tbl c == rawAt k.tbl (c + 32)) = true := by decide +kernel
+
+theorem facts_ci_fold_ascii : ∀ k ∈ table, k.ci = true → ∀ c ∈ asciiUpper,
+    ciExc k.id c = true ∨ weightAt k.tbl c = weightAt k.tbl (c + 32) := by
+  intro k hk hci c hc
+  have h := List.all_eq_true.1 facts_ci_fold_ascii_b k hk
+  simp only [hci, Bool.not_true, Bool.false_or, List.all_eq_true, Bool.or_eq_true, beq_iff_eq] at h
+  rcases h c hc with h | h
+  · exact Or.inl h
+  · exact Or.inr (by rw [weightAt_of_raw, weightAt_of_raw, h])
+
+/-- The same for the Latin-1 letters À–Þ in the `_ci` collations of the Unicode character sets. -/
+theorem facts_ci_fold_latin1_b : table.all (fun k => !k.ci || !decide (k.maxLen > 1) || latin1Upper.all fun c =>
+    ciExc k.id c || rawAt k.tbl c == rawAt k.tbl (c + 32)) = true := by decide +kernel
+
+theorem facts_ci_fold_latin1 : ∀ k ∈ table, k.ci = true → k.maxLen > 1 → ∀ c ∈ latin1Upper,
+    ciExc k.id c = true ∨ weightAt k.tbl c = weightAt k.tbl (c + 32) := by
+  intro k hk hci hm c hc
+  have h := List.all_eq_true.1 facts_ci_fold_latin1_b k hk
+  simp only [hci, hm, decide_true, Bool.not_true, Bool.false_or, List.all_eq_true, Bool.or_eq_true, beq_iff_eq] at h
+  rcases h c hc with h | h
+  · exact Or.inl h
+  · exact Or.inr (by rw [weightAt_of_raw, weightAt_of_raw, h])
+
+/-- The exception list is tight: every listed pair really differs (if a pair gets repaired the
+list must shrink). These are the witnesses of the two `ci_*` findings; replayed on the real
+code by the harness (`Compare("I","i")` under `utf8mb4_turkish_ci` = -1, `Compare("T","t")`
+under `latin7_general_ci` = 1). -/
+theorem facts_ci_exceptions_tight : ciExceptions.all (fun e => table.any fun k =>
+    k.id == e.1 && k.name == e.2.1 && k.ci && weightAt k.tbl e.2.2 != weightAt k.tbl (e.2.2 + 32)) = true := by
+  decide +kernel
+
+/-- ids identify collations -/
+theorem facts_ids_distinct : (table.map (·.id)).eraseDups.length = table.length := by decide +kernel
+
+theorem finding_ci_turkish_dotted_i : ∃ k, k ∈ table ∧ k.ci = true ∧ k.name = "utf8mb4_turkish_ci" ∧
+    compare (wOf k) false [73] [105] ≠ some 0 := by
+  have h : table.any (fun k => k.ci && k.name == "utf8mb4_turkish_ci" &&
+      decide (compare (wOf k) false [73] [105] ≠ some 0)) = true := by decide +kernel
+  obtain ⟨k, hk, hp⟩ := List.any_eq_true.1 h
+  simp only [Bool.and_eq_true, beq_iff_eq, decide_eq_true_eq] at hp
+  exact ⟨k, hk, hp.1.1, hp.1.2, hp.2⟩
+
+theorem finding_ci_latin7_general_pairs : ∃ k, k ∈ table ∧ k.ci = true ∧ k.name = "latin7_general_ci" ∧
+    compare (wOf k) false [84] [116] ≠ some 0 := by
+  have h : table.any (fun k => k.ci && k.name == "latin7_general_ci" &&
+      decide (compare (wOf k) false [84] [116] ≠ some 0)) = true := by decide +kernel
+  obtain ⟨k, hk, hp⟩ := List.any_eq_true.1 h
+  simp only [Bool.and_eq_true, beq_iff_eq, decide_eq_true_eq] at hp
+  exact ⟨k, hk, hp.1.1, hp.1.2, hp.2⟩
+
+/-- the case mapping the facts talk about -/
+def foldLower (latin1 : Bool) (c : Nat) : Nat :=
+  if (65 ≤ c ∧ c ≤ 90) ∨ (latin1 = true ∧ 192 ≤ c ∧ c ≤ 222 ∧ c ≠ 215) then c + 32 else c
+
+theorem mem_asciiUpper (c : Nat) (h : 65 ≤ c ∧ c ≤ 90) : c ∈ asciiUpper := by
+  simp only [asciiUpper, List.mem_range'_1]; omega
+
+theorem mem_latin1Upper (c : Nat) (h : 192 ≤ c ∧ c ≤ 222 ∧ c ≠ 215) : c ∈ latin1Upper := by
+  simp only [latin1Upper, List.mem_filter, List.mem_range'_1, bne_iff_ne, ne_eq]; omega
+
+/-- Full statement (FALSE on the unchanged tree, see the two `finding_ci_*`): without the guard
+`¬ CiRegion`. **Partial**: for every `_ci` collation of the compiled code, a rune string and its
+lower-cased form (A–Z, and À–Þ for the Unicode character sets) have equal weight lists, hence
+compare equal, have equal weight strings and equal hashes — provided no rune is one of the
+listed exception pairs. -/
+theorem ci_collations_equate_case_partial : ∀ k ∈ table, k.ci = true → ∀ (s : List Nat),
+    (∀ c ∈ s, ¬ CiRegion k c) →
+    cmpW (s.map (wOf k)) ((s.map (foldLower (decide (k.maxLen > 1)))).map (wOf k)) = 0 := by
+  intro k hk hci s hs
+  apply ci_equates_case_on
+  intro c hc
+  have hex := hs c hc
+  unfold foldLower
+  split
+  · rename_i hcase
+    rcases hcase with h | ⟨hl, h⟩
+    · rcases facts_ci_fold_ascii k hk hci c (mem_asciiUpper c h) with h1 | h1
+      · exact absurd h1 hex
+      · rw [wOf_lt k c (by omega), wOf_lt k (c + 32) (by omega), h1]
+    · have hm : k.maxLen > 1 := by simpa using hl
+      rcases facts_ci_fold_latin1 k hk hci hm c (mem_latin1Upper c h) with h1 | h1
+      · exact absurd h1 hex
+      · rw [wOf_lt k c (by omega), wOf_lt k (c + 32) (by omega), h1]
+  · rfl
+
+/-- ASCII byte strings are their own rune lists. -/
+theorem runes_ascii : ∀ (s : List Nat), (∀ c ∈ s, c < 128) → runes false s = s := by
+  intro s
+  induction s with
+  | nil => intro _; exact runes_nil false
+  | cons b t ih =>
+    intro h
+    have hb : b < 128 := h b (by simp)
+    rw [runes_cons false (b :: t) (by simp)]
+    have hd : nextRune false (b :: t) = (b, 1) := by
+      simp only [nextRune, Bool.false_eq_true, if_false, decodeUtf8]
+      have hn : Gms.RangeMap.utf8Len (b :: t) = 1 := by
+        have : b < 0xC2 := by omega
+        simp [Gms.RangeMap.utf8Len, this]
+      simp [hn, hb]
+    rw [hd]
+    simp [ih (fun c hc => h c (by simp [hc]))]
+
+/-- The Go-level corollary: `StringType.Compare` of an ASCII string and its lower-cased form is 0
+under every `_ci` collation of the compiled code (outside the exception pairs). -/
+theorem ci_compare_ascii_partial : ∀ k ∈ table, k.ci = true → ∀ (s : List Nat),
+    (∀ c ∈ s, c < 128) → (∀ c ∈ s, ¬ CiRegion k c) →
+    compare (wOf k) false s (s.map (foldLower false)) = some 0 := by
+  intro k hk hci s hascii hs
+  rw [compare_zero_iff_weights, runes_ascii s hascii, runes_ascii]
+  · have h := ci_collations_equate_case_partial k hk hci s hs
+    rw [cmpW_eq_zero_iff] at h
+    rw [h]
+    congr 1
+    apply List.map_congr_left
+    intro c hc
+    have := hascii c hc
+    have h192 : ¬ (192 ≤ c) := by omega
+    simp [foldLower, h192]
+  · intro c hc
+    obtain ⟨c0, hc0, rfl⟩ := List.mem_map.1 hc
+    have := hascii c0 hc0
+    unfold foldLower
+    split <;> simp_all <;> omega
+
+example : compare (wOf c_255) false [72, 105, 33] ([72, 105, 33].map (foldLower false)) = some 0 ∧
+    [72, 105, 33].map (foldLower false) = [104, 105, 33] := by decide +kernel
+
+/-! #### Binary collations -/
+
+/-- `_bin` collations of the Unicode character sets (and their `0900` variant): weight = code
+point on the whole dumped range. -/
+theorem facts_bin_identity_b : table.all (fun k => !k.bin || !decide (k.maxLen > 1) || (List.range 768).all fun r =>
+    rawAt k.tbl r == r) = true := by decide +kernel
+
+theorem facts_bin_identity : ∀ k ∈ table, k.bin = true → k.maxLen > 1 → ∀ r ∈ List.range 768,
+    weightAt k.tbl r = (r : Int) := by
+  intro k hk hb hm r hr
+  have h := List.all_eq_true.1 facts_bin_identity_b k hk
+  simp only [hb, hm, decide_true, Bool.not_true, Bool.false_or, List.all_eq_true, beq_iff_eq] at h
+  have hr' : r < 768 := List.mem_range.1 hr
+  rw [weightAt_of_raw, h r hr, if_neg (by omega)]
+
+/-- one pass: the `some` entries increase strictly (`p` = the last one seen) -/
+def strictInc : Option Int → List (Option Int) → Bool
+  | _, [] => true
+  | p, none :: t => strictInc p t
+  | none, some x :: t => strictInc (some x) t
+  | some p, some x :: t => decide (p < x) && strictInc (some x) t
+
+theorem strictInc_spec : ∀ (l : List (Option Int)) (p : Option Int), strictInc p l = true →
+    (∀ p0, p = some p0 → ∀ y, some y ∈ l → p0 < y) ∧
+    List.Pairwise (fun a b => ∀ x ∈ a, ∀ y ∈ b, x < y) l
+  | [], _, _ => by simp
+  | none :: t, p, h => by
+    simp only [strictInc] at h
+    obtain ⟨h1, h2⟩ := strictInc_spec t p h
+    refine ⟨fun p0 hp y hy => h1 p0 hp y (by simpa using hy), ?_⟩
+    rw [List.pairwise_cons]
+    exact ⟨fun b _ x hx => by simp at hx, h2⟩
+  | some x :: t, none, h => by
+    simp only [strictInc] at h
+    obtain ⟨h1, h2⟩ := strictInc_spec t (some x) h
+    refine ⟨fun p0 hp => by simp at hp, ?_⟩
+    rw [List.pairwise_cons]
+    refine ⟨fun b hb x' hx' y hy => ?_, h2⟩
+    have hx'' : x' = x := by simpa [eq_comm] using hx'
+    subst hx''
+    cases b with
+    | none => simp at hy
+    | some y' =>
+      have : y = y' := by simpa [eq_comm] using hy
+      subst this
+      exact h1 x' rfl y hb
+  | some x :: t, some p, h => by
+    simp only [strictInc, Bool.and_eq_true, decide_eq_true_eq] at h
+    obtain ⟨h1, h2⟩ := strictInc_spec t (some x) h.2
+    refine ⟨fun p0 hp y hy => ?_, ?_⟩
+    · have hp' : p = p0 := by simpa using hp
+      subst hp'
+      rcases List.mem_cons.1 hy with hy | hy
+      · have : y = x := by simpa using hy
+        omega
+      · have := h1 x rfl y hy
+        omega
+    · rw [List.pairwise_cons]
+      refine ⟨fun b hb x' hx' y hy => ?_, h2⟩
+      have hx'' : x' = x := by simpa [eq_comm] using hx'
+      subst hx''
+      cases b with
+      | none => simp at hy
+      | some y' =>
+        have : y = y' := by simpa [eq_comm] using hy
+        subst this
+        exact h1 x' rfl y hb
+
+/-- `binary` and the `_bin` collations of the one-byte character sets: the weights of the
+characters increase strictly with the byte that encodes them (all 256 bytes, kernel evaluation). -/
+theorem facts_bin_single_byte_strictInc_b : table.all (fun k => !k.bin || !(k.maxLen == 1) ||
+    strictInc none ((List.range 256).map (byteWeightAt k.byteW))) = true := by decide +kernel
+
+theorem facts_bin_single_byte_strictInc : ∀ k ∈ table, k.bin = true → k.maxLen = 1 →
+    strictInc none ((List.range 256).map (byteWeightAt k.byteW)) = true := by
+  intro k hk hb hm
+  have h := List.all_eq_true.1 facts_bin_single_byte_strictInc_b k hk
+  simpa only [hb, hm, beq_self_eq_true, Bool.not_true, Bool.false_or] using h
+
+theorem facts_bin_single_byte_order (k : Coll) (hk : k ∈ table) (hb : k.bin = true) (hm : k.maxLen = 1)
+    (i j : Nat) (hi : i < 256) (hj : j < 256) (hij : i < j) :
+    ∀ x ∈ byteWeightAt k.byteW i, ∀ y ∈ byteWeightAt k.byteW j, x < y := by
+  have h := (strictInc_spec _ none (facts_bin_single_byte_strictInc k hk hb hm)).2
+  rw [List.pairwise_iff_getElem] at h
+  have := h i j (by simpa using hi) (by simpa using hj) hij
+  simpa using this
+
+/-- `bin_orders_by_codepoint` restricted to a set of runes. -/
+theorem bin_orders_by_codepoint_on (w : Nat → Int) (S : Nat → Prop)
+    (hmono : ∀ r s, S r → S s → r < s → w r < w s) :
+    ∀ (a b : List Nat), (∀ r ∈ a, S r) → (∀ r ∈ b, S r) → cmpW (a.map w) (b.map w) = cmpCodepoints a b
+  | [], [], _, _ => rfl
+  | [], _ :: _, _, _ => rfl
+  | _ :: _, [], _, _ => rfl
+  | x :: xs, y :: ys, ha, hb => by
+    simp only [List.map_cons, cmpW, cmpCodepoints]
+    have ih := bin_orders_by_codepoint_on w S hmono xs ys (fun r hr => ha r (by simp [hr]))
+      (fun r hr => hb r (by simp [hr]))
+    have sx := ha x (by simp)
+    have sy := hb y (by simp)
+    by_cases h1 : x < y
+    · simp [h1, hmono x y sx sy h1]
+    · by_cases h2 : x > y
+      · have := hmono y x sy sx h2
+        have h3 : ¬ w x < w y := by omega
+        simp [h1, h2, h3, this]
+      · have : x = y := by omega
+        subst this
+        simp [ih]
+
+/-- **Binary collations of the Unicode character sets order by code point** (runes of the dumped
+range; the harness checks monotonicity of the real `Sorter` over all code points). -/
+theorem bin_collations_order_by_codepoint : ∀ k ∈ table, k.bin = true → k.maxLen > 1 →
+    ∀ (a b : List Nat), (∀ r ∈ a, r < 768) → (∀ r ∈ b, r < 768) →
+    cmpW (a.map (wOf k)) (b.map (wOf k)) = cmpCodepoints a b := by
+  intro k hk hb hm
+  apply bin_orders_by_codepoint_on (wOf k) (· < 768)
+  intro r s hr hs hrs
+  rw [wOf_lt k r hr, wOf_lt k s hs,
+    facts_bin_identity k hk hb hm r (List.mem_range.2 hr), facts_bin_identity k hk hb hm s (List.mem_range.2 hs)]
+  omega
+
+/-- The weight function of a one-byte character set over its *bytes* (character codes). -/
+def byteW (k : Coll) (b : Nat) : Int := (byteWeightAt k.byteW b).getD defaultWeight
+
+/-- **Binary collations of the one-byte character sets (and `binary`) order by the character code
+in the character set**: strings given as lists of character codes compare like the code lists. -/
+theorem bin_single_byte_orders_by_charset_code : ∀ k ∈ table, k.bin = true → k.maxLen = 1 →
+    ∀ (a b : List Nat), (∀ c ∈ a, c < 256 ∧ (byteWeightAt k.byteW c).isSome) →
+      (∀ c ∈ b, c < 256 ∧ (byteWeightAt k.byteW c).isSome) →
+    cmpW (a.map (byteW k)) (b.map (byteW k)) = cmpCodepoints a b := by
+  intro k hk hb hm
+  apply bin_orders_by_codepoint_on (byteW k) (fun c => c < 256 ∧ (byteWeightAt k.byteW c).isSome)
+  intro r s ⟨hr, hr2⟩ ⟨hs, hs2⟩ hrs
+  obtain ⟨x, hx⟩ := Option.isSome_iff_exists.1 hr2
+  obtain ⟨y, hy⟩ := Option.isSome_iff_exists.1 hs2
+  have := facts_bin_single_byte_order k hk hb hm r s hr hs hrs x (by simp [hx]) y (by simp [hy])
+  simp [byteW, hx, hy, this]
+
+/-- Full statement of the property's wording "binary collations order by (Unicode) code point":
+FALSE for the `_bin` collations of one-byte character sets whose byte order differs from the
+code-point order (they order by character code in the set, as MySQL does — theorem above).
+Witness: `armscii8_bin`, U+00AB « (byte 0xA7) sorts after U+00BB » (byte 0xA6). -/
+theorem finding_bin_single_byte_charset_order : ∃ k, k ∈ table ∧ k.bin = true ∧ k.maxLen = 1 ∧
+    k.name = "armscii8_bin" ∧ cmpCodepoints [171] [187] = -1 ∧ compare (wOf k) false [194, 171] [194, 187] = some 1 := by
+  have h : table.any (fun k => k.bin && k.maxLen == 1 && k.name == "armscii8_bin" &&
+      decide (cmpCodepoints [171] [187] = -1) && decide (compare (wOf k) false [194, 171] [194, 187] = some 1)) = true := by
+    decide +kernel
+  obtain ⟨k, hk, hp⟩ := List.any_eq_true.1 h
+  simp only [Bool.and_eq_true, beq_iff_eq, decide_eq_true_eq] at hp
+  exact ⟨k, hk, hp.1.1.1.1, hp.1.1.1.2, hp.1.1.2, hp.1.2, hp.2⟩
+
+end Facts
+
 end Gms.C29
